@@ -12,8 +12,9 @@ from props.c08 import _dict_script, _set_script
 
 ID = "C13"
 ASAN_THOROUGH = True   # thorough tier runs against the AddressSanitizer build
-RULE = ("if_then_else(cond, a, b) - optionally passed on through a nested pass-through graph - over two scripted targets of shape "
-        "TS[int], TSS[int] or TSD[int,TS[int]], read by 1-3 consumers below the reference. Condition and target histories give every "
+RULE = ("if_then_else(cond, a, b), or if_cmp(cmp_(x, 0), a, b, g) with three targets - optionally passed on through a nested pass-through "
+        "graph - over scripted targets of shape TS[int], TSS[int], TSD[int,TS[int]] or TSB[TS[int],TS[int]], read by 1-3 consumers below "
+        "the reference plus a consumer of the reference itself. Condition and target histories give every "
         "relative timing: retarget to a target that last ticked earlier / in the same cycle / never, retarget back, re-publication of the "
         "same selection, ticks of the unselected target. A small model of 'current target' predicts, per cycle, whether each consumer "
         "must be evaluated, the value it reads, and for sets/dictionaries the delta (target's own delta on an ordinary tick; old-only "
@@ -54,8 +55,17 @@ def case(draw, tier):
         return _dict_script(draw, start, end, 7 if big else 5)
     a, b = target(), target()
     ctimes = draw(gen.time_set(start, end - 1, 1, 9 if big else 6))
-    c = [[t, [{"k": "set", "v": draw(st.booleans())}]] for t in ctimes]
-    return {"start": start, "end": end, "shape": shape, "a": a, "b": b, "c": c, "n_cons": draw(st.integers(1, 3)), "nested": draw(st.integers(0, 3)) == 0}
+    # the reference is made by if_then_else (two targets, boolean condition) or by if_cmp (three targets, selected by the
+    # three-way result of cmp_(x, 0) for a scripted x)
+    via = draw(st.sampled_from(["ite", "ite", "cmp"]))
+    if via == "ite":
+        c = [[t, [{"k": "set", "v": draw(st.booleans())}]] for t in ctimes]
+        g = []
+    else:
+        c = [[t, [{"k": "set", "v": draw(st.sampled_from([-1, 0, 1]))}]] for t in ctimes]
+        g = target()
+    return {"start": start, "end": end, "shape": shape, "a": a, "b": b, "g": g, "via": via, "c": c, "n_cons": draw(st.integers(1, 3)),
+            "nested": draw(st.integers(0, 3)) == 0}
 
 
 def strategy(tier):
@@ -81,10 +91,22 @@ def val_of(m):
 def check(case, ctx) -> Result:
     res = Result()
     start, end, shape = case["start"], case["end"], case["shape"]
-    stmts = [{"id": "c", "op": "src", "schema": "TS[bool]", "script": case["c"]},
-             {"id": "a", "op": "src", "schema": shape, "script": case["a"]},
-             {"id": "b", "op": "src", "schema": shape, "script": case["b"]},
-             {"id": "sel0", "op": "op", "name": "if_then_else", "args": [{"ts": "c"}, {"ts": "a"}, {"ts": "b"}], "has_out": True}]
+    via = case.get("via", "ite")
+    if via == "ite":
+        stmts = [{"id": "c", "op": "src", "schema": "TS[bool]", "script": case["c"]},
+                 {"id": "a", "op": "src", "schema": shape, "script": case["a"]},
+                 {"id": "b", "op": "src", "schema": shape, "script": case["b"]},
+                 {"id": "sel0", "op": "op", "name": "if_then_else", "args": [{"ts": "c"}, {"ts": "a"}, {"ts": "b"}], "has_out": True}]
+        pick = lambda v: "a" if v else "b"
+    else:
+        stmts = [{"id": "c", "op": "src", "schema": "TS[int]", "script": case["c"]},
+                 {"id": "z", "op": "src", "schema": "TS[int]", "script": [[start, [{"k": "set", "v": 0}]]]},
+                 {"id": "a", "op": "src", "schema": shape, "script": case["a"]},
+                 {"id": "b", "op": "src", "schema": shape, "script": case["b"]},
+                 {"id": "g", "op": "src", "schema": shape, "script": case["g"]},
+                 {"id": "cr", "op": "op", "name": "cmp_", "args": [{"ts": "c"}, {"ts": "z"}], "has_out": True},
+                 {"id": "sel0", "op": "op", "name": "if_cmp", "args": [{"ts": "cr"}, {"ts": "a"}, {"ts": "b"}, {"ts": "g"}], "has_out": True}]
+        pick = lambda v: "a" if v < 0 else "b" if v == 0 else "g"
     subs = {}
     sel = "sel0"
     if case["nested"]:
@@ -115,30 +137,30 @@ def check(case, ctx) -> Result:
         return res
     tr = Trace(resp["trace"])
     sch = schema_of(shape)
-    A, B = tm.M(sch), tm.M(sch)
-    sa, sb, sc = ({t: ops for t, ops in case[x]} for x in ("a", "b", "c"))
+    names = ["a", "b"] + (["g"] if via == "cmp" else [])
+    MS = {n: tm.M(sch) for n in names}
+    scripts = {n: {t: ops for t, ops in case[n]} for n in names}
+    sc = {t: ops for t, ops in case["c"]}
     cur = None         # "a" / "b"
     held = None        # the value the consumers hold (contents of the previous target as last seen)
-    feats0 = {"shape": shape, "nested": case["nested"]}
+    feats0 = {"shape": shape, "nested": case["nested"], "via": via}
     exp = {}           # t -> dict(value, kind, delta alternatives)
     retarget_to_old = unselected_tick_after = False
     maybe_unbound = True
     for t in range(start, end):
-        A.begin_cycle(); B.begin_cycle()
-        for op in sa.get(t, []):
-            A.apply(op, t)
-        for op in sb.get(t, []):
-            B.apply(op, t)
+        for n in names:
+            MS[n].begin_cycle()
+            for op in scripts[n].get(t, []):
+                MS[n].apply(op, t)
         new = cur
         if t in sc:
-            new = "a" if sc[t][-1]["v"] else "b"
-        tgt = {"a": A, "b": B}.get(new)
-        oth = {"a": B, "b": A}.get(new)
+            new = pick(sc[t][-1]["v"])
         if new is None:
             continue
+        tgt = MS[new]
         retarget = new != cur
         ticked = tgt.modified()
-        if oth.modified() and not retarget and retarget_to_old:
+        if any(MS[n].modified() for n in names if n != new) and not retarget and retarget_to_old:
             unselected_tick_after = True
         if retarget:
             if tvalid(tgt) and not ticked and cur is not None:
@@ -146,7 +168,7 @@ def check(case, ctx) -> Result:
             if tvalid(tgt):
                 v = val_of(tgt)
                 olds = [held]
-                prev_m = {"a": A, "b": B}.get(cur)
+                prev_m = MS.get(cur)
                 if prev_m is not None:
                     olds.append(val_of(prev_m))   # the previous target may have ticked in this very cycle
                 if maybe_unbound:
@@ -163,7 +185,7 @@ def check(case, ctx) -> Result:
             held = val_of(tgt)
     sel_changes, last = [], None
     for t, ops in case["c"]:
-        v = ops[-1]["v"]
+        v = pick(ops[-1]["v"])
         if v != last:
             sel_changes.append(t)
         last = v
@@ -179,7 +201,7 @@ def check(case, ctx) -> Result:
             feats = dict(feats0, kind=(e or {}).get("kind", "none"))
             if e is None:
                 if g is not None:
-                    why = "republished selection" if t in sc else "tick of the unselected target" if (t in sa or t in sb) else "nothing"
+                    why = "republished selection" if t in sc else "tick of the unselected target" if any(t in scripts[n] for n in names) else "nothing"
                     res.violations.append(Viol("unexpected_evaluation", f"consumer {lbl} evaluated at t={t} ({why}); it read {str(g.get('val'))[:80]} modified={g.get('m')}", dict(feats, why=why)))
                     break
                 continue
@@ -229,5 +251,6 @@ def check(case, ctx) -> Result:
     if case["nested"]:
         res.labels.append("nested_passthrough")
     res.labels.append("shape_" + shape.split("[")[0])
+    res.labels.append("via_" + via)
     res.summary = {"expected": {t: e["kind"] for t, e in sorted(exp.items())}, "shape": shape}
     return res
